@@ -1,23 +1,21 @@
-import Rcgen.Theorems.C01
+import Rcgen.Proofs.CertDecode
 /-
   C02 — a certificate says exactly what its parameters say.
   Spec: `Spec.c02Clauses` (Spec/Props.lean): the RFC 5280 decoding of the to-be-signed bytes
   equals `Spec.reqExts` / `reqName` / `reqSerial` … computed from the parameters alone.
   This file: finite tables closed over their whole domain, the extension-block rule, and the
-  field layout.  `cert_decodes_to_request` (full typed decode) is built on Proofs/X509.
+  field layout, and `cert_decodes_to_request`: the full typed decode, assembled in
+  Proofs/{Leaf,WF,X509,KeyUsage,CertDecode}.lean from the generic DER round trip and one
+  inverse lemma per writer.
 -/
 namespace Rcgen.Theorems.C02
 open Rcgen Rcgen.Model Rcgen.Spec
 
 /-- the key-usage set selected by a 9-bit mask, in named-bit order -/
-def kuSubset (mask : Nat) : List KeyUsage :=
-  KeyUsage.all.filter (fun k => (mask >>> k.index) % 2 == 1)
+abbrev kuSubset := Proofs.KeyUsage.kuSubset
 
 /-- decode the KeyUsage BIT STRING the model writes for a set -/
-def decodedKu (kus : List KeyUsage) : Option (List Nat) :=
-  match keyUsageValue kus with
-  | .prim 0 3 (u :: bs) => some (namedBits u.toNat bs)
-  | _ => none
+abbrev decodedKu := Proofs.KeyUsage.decodedKu
 
 /-- **all 512 key-usage subsets**: the named bits an RFC 5280 decoder reads are exactly the
     requested ones, and the named-bit list is minimal (no trailing zero bit) -/
@@ -27,45 +25,28 @@ theorem key_usage_bits_all_subsets :
       (decodedKu (kuSubset m) == some (reqKeyUsageBits (kuSubset m)) &&
        (match keyUsageValue (kuSubset m) with
         | .prim 0 3 c => namedBitsMinimal c
-        | _ => false))) = true := by decide +kernel
+        | _ => false))) = true := Proofs.KeyUsage.table
 
 /-- the bit pattern depends only on *which* usages occur: duplicates and order are immaterial -/
 theorem keyUsageBits_testBit (kus : List KeyUsage) (j : Nat) :
-    (keyUsageBits kus).testBit j = kus.any (fun k => k.index + j == 15) := by
-  unfold keyUsageBits
-  suffices H : ∀ acc, (kus.foldl (fun acc k => acc ||| (32768 >>> k.index)) acc).testBit j =
-      (acc.testBit j || kus.any (fun k => k.index + j == 15)) by
-    simpa using H 0
-  induction kus with
-  | nil => intro acc; simp
-  | cons k ks ih =>
-    intro acc
-    simp only [List.foldl_cons, ih, Nat.testBit_or, List.any_cons, Nat.testBit_shiftRight]
-    have h32768 : (32768 : Nat) = 2 ^ 15 := by decide
-    rw [h32768, Nat.testBit_two_pow]
-    have hb : (k.index + j == 15) = decide (15 = k.index + j) := by
-      by_cases h : k.index + j = 15
-      · simp [h]
-      · have h' : ¬ 15 = k.index + j := fun e => h e.symm
-        simp [h, h']
-    rw [hb]
-    cases acc.testBit j <;> simp
+    (keyUsageBits kus).testBit j = kus.any (fun k => k.index + j == 15) :=
+  Proofs.KeyUsage.keyUsageBits_testBit kus j
 
 theorem keyUsageBits_congr (a b : List KeyUsage) (h : ∀ k, k ∈ a ↔ k ∈ b) :
-    keyUsageBits a = keyUsageBits b := by
-  apply Nat.eq_of_testBit_eq
-  intro j
-  rw [keyUsageBits_testBit, keyUsageBits_testBit]
-  rw [Bool.eq_iff_iff]
-  simp only [List.any_eq_true]
-  constructor
-  · intro ⟨k, hk, hb⟩; exact ⟨k, (h k).1 hk, hb⟩
-  · intro ⟨k, hk, hb⟩; exact ⟨k, (h k).2 hk, hb⟩
+    keyUsageBits a = keyUsageBits b := Proofs.KeyUsage.keyUsageBits_congr a b h
 
 /-- so every list of usages (any order, any repetition) is written as its subset is -/
 theorem keyUsageValue_congr (a b : List KeyUsage) (h : ∀ k, k ∈ a ↔ k ∈ b) :
-    keyUsageValue a = keyUsageValue b := by
-  unfold keyUsageValue; rw [keyUsageBits_congr a b h]
+    keyUsageValue a = keyUsageValue b := Proofs.KeyUsage.keyUsageValue_congr a b h
+
+/-- **every list of usages** — any order, any repetition — is written as a BIT STRING from which
+    an RFC 5280 reader obtains exactly the requested named bits, with no trailing zero bit
+    (the 512-row table lifted to arbitrary lists) -/
+theorem key_usage_decodes (kus : List KeyUsage) (hne : kus ≠ []) :
+    decodedKu kus = some (reqKeyUsageBits kus) ∧
+    (match keyUsageValue kus with
+     | .prim 0 3 c => namedBitsMinimal c
+     | _ => false) = true := Proofs.KeyUsage.ku_decodes kus hne
 
 /-- first `min n w` bits set, as `w/8` octets -/
 def leadingOnes (w n : Nat) : Bytes :=
@@ -151,14 +132,94 @@ theorem nothing_dropped (H : Hashes) (p : CertParams) (s : PubKey) (i : Issuer)
     simp [h1, e2, e3, e4, e6, h7, e8, this]
 
 /-- the subject public key is written as the RFC SubjectPublicKeyInfo of (algorithm, key bits) -/
-theorem spki_is_rfc (k : PubKey) : spkiDer k = rfcSpki k := by
-  unfold spkiDer spkiNode rfcSpki
-  have := C01.spki_algid_is_rfc_identifier k.alg
-  simp only [Asn1.seq, encode, encodeList, Asn1.bitStringOctets, Asn1.bitString,
-    bitStringContent_octets, this]
+theorem spki_is_rfc (k : PubKey) : spkiDer k = rfcSpki k := Proofs.CertDecode.spki_is_rfc k
+
+/-- the extension identifiers whose values an RFC 5280 reader interprets; a caller-supplied
+    extension under one of them would have to carry a well-formed value of that extension,
+    which is the caller's business, so the theorem below excludes them -/
+abbrev interpretedOids := Proofs.X509.knownOids
+
+/-- **a certificate says exactly what its parameters say.**  For every parameter set, subject
+    key, issuer and hash family: if validation passes and the values of the validated string
+    types carry their invariant (that is, generation returns a certificate), then strict DER
+    decoding of the to-be-signed bytes followed by the RFC 5280 readers yields exactly the
+    requested content — serial number, issuer and subject names as the enumerations of the
+    names, both validity instants, the RFC SubjectPublicKeyInfo, and *exactly* the requested
+    extensions (nothing missing, nothing added, nothing twice), each with the requested
+    content; the subject key identifier is present in a CA certificate and is the configured
+    digest of the SubjectPublicKeyInfo.  No bound on list or text lengths; the only size
+    hypothesis is that the encoding is shorter than 256^126 octets. -/
+theorem cert_decodes_to_request (i : CertInputs)
+    (hinv : certInvalid i.p i.issuer = none)
+    (hnp : certPanics i.p i.issuer = false)
+    (hc : ∀ e ∈ i.p.customExts, e.oid ∉ interpretedOids)
+    (hsize : (encode (tbsCertificate i.H i.p i.subject i.issuer)).length < 256 ^ 126) :
+    c02Clauses i (encode (tbsCertificate i.H i.p i.subject i.issuer)) = [] :=
+  Proofs.CertDecode.c02_clauses_hold i hinv hnp hc hsize
+
+/-- the typed record itself -/
+theorem cert_decodes_to_record (i : CertInputs)
+    (hinv : certInvalid i.p i.issuer = none)
+    (hnp : certPanics i.p i.issuer = false)
+    (hc : ∀ e ∈ i.p.customExts, e.oid ∉ interpretedOids)
+    (hsize : (encode (tbsCertificate i.H i.p i.subject i.issuer)).length < 256 ^ 126) :
+    decodeTbsCert (encode (tbsCertificate i.H i.p i.subject i.issuer)) =
+      some (Proofs.CertDecode.modelTbs i) :=
+  Proofs.CertDecode.tbs_decodes i hinv hnp hc hsize
+
+/-- stated on the public entry point: whatever certificate `issueCert` returns, its embedded
+    to-be-signed bytes decode to the request -/
+theorem issued_cert_decodes_to_request (cfg : Config) (i : CertInputs) (sign : Signer) (t : Asn1)
+    (h : issueCert cfg i.H i.p i.subject i.issuer sign = .ok t)
+    (hc : ∀ e ∈ i.p.customExts, e.oid ∉ interpretedOids)
+    (hsize : (encode (tbsCertificate i.H i.p i.subject i.issuer)).length < 256 ^ 126) :
+    ∃ sig, t = .seq [tbsCertificate i.H i.p i.subject i.issuer, algIdent i.issuer.key.alg,
+        .bitStringOctets sig] ∧
+      c02Clauses i (encode (tbsCertificate i.H i.p i.subject i.issuer)) = [] := by
+  unfold issueCert at h
+  cases hinv : certInvalid i.p i.issuer with
+  | some e => simp [hinv] at h
+  | none =>
+    simp only [hinv] at h
+    split at h
+    · cases h
+    · split at h
+      · cases h
+      · rename_i hnp
+        have hnp' : certPanics i.p i.issuer = false := by simpa using hnp
+        unfold signDer at h
+        cases hs : sign (encode (tbsCertificate i.H i.p i.subject i.issuer)) with
+        | error e => simp [hs] at h
+        | ok sig =>
+          simp only [hs] at h
+          exact ⟨sig, by cases h; rfl, cert_decodes_to_request i hinv hnp' hc hsize⟩
 
 /-! non-vacuity: the case the hand-maintained condition used to miss -/
 example : shouldWriteExts { (default : CertParams) with keyUsages := [.digitalSignature] } = true := by
   decide
+
+/-! non-vacuity of `cert_decodes_to_request`: a CA certificate with every kind of extension,
+    dates in an offset, a repeated key usage, a directory-name constraint — meets all four
+    hypotheses -/
+def exDt (y : Int) : DateTime :=
+  { year := y, month := 1, day := 1, hour := 0, minute := 0, second := 0, nanos := 0, offset := 3600 }
+def exDn : DistinguishedName :=
+  (DistinguishedName.new.push .commonName (.utf8 [0x61])).push .org (.printable [0x62])
+def exInputs : CertInputs :=
+  { H := ⟨fun _ => List.replicate 32 7, fun _ => List.replicate 48 7, fun _ => List.replicate 64 7⟩,
+    p := { notBefore := exDt 2024, notAfter := exDt 2051, serial := none,
+           sans := [.dns [0x61], .ip [10, 0, 0, 1]], dn := exDn, isCa := .ca (some 0),
+           keyUsages := [.keyCertSign, .digitalSignature, .keyCertSign], ekus := [.serverAuth],
+           nameConstraints := some { permitted := [.dns [0x61]], excluded := [.directoryName exDn] },
+           crlDps := [⟨[[0x68]]⟩], customExts := [⟨[1, 2, 3, 4], true, [5, 0]⟩], useAki := true,
+           keyIdMethod := .sha256 },
+    subject := ⟨.ed25519, List.replicate 32 1⟩,
+    issuer := { dn := exDn, keyIdMethod := .sha384, keyUsages := [], key := ⟨.ecdsaP256, [4, 1, 2]⟩ } }
+
+example : certInvalid exInputs.p exInputs.issuer = none := by decide +kernel
+example : certPanics exInputs.p exInputs.issuer = false := by decide +kernel
+example : ∀ e ∈ exInputs.p.customExts, e.oid ∉ interpretedOids := by decide
+example : (encode (tbsCertificate exInputs.H exInputs.p exInputs.subject exInputs.issuer)).length
+    < 256 ^ 126 := by decide +kernel
 
 end Rcgen.Theorems.C02
